@@ -1042,6 +1042,9 @@ class Exec:
         if not fields and vs is None:
             # unit variant of an enum defined outside /repo: an opaque tag
             return OpaqueV("enumconst." + sanitize(path), dty)
+        if vs is None:
+            # variant with payload of an enum defined outside /repo: keep the payload, tag by path
+            return AggV(fields, path)
         raise Unsupported(f"aggregate `{path}` for type `{dty}`")
 
     def discriminant(self, v, dty):
